@@ -16,6 +16,7 @@ package analysis
 
 import (
 	"log"
+	"net/url"
 	"path"
 	"sort"
 	"strings"
@@ -272,22 +273,27 @@ func removeUnused(opts *FlattenOpts) {
 }
 
 func removeUnusedSinglePass(opts *FlattenOpts) (hasRemoved bool) {
-	expected := make(map[string]struct{})
+	// JSON pointer to the definition => name of the definition
+	expected := make(map[string]string)
 	for k := range opts.Swagger().Definitions {
-		expected[path.Join(definitionsPath, jsonpointer.Escape(k))] = struct{}{}
+		expected[path.Join(definitionsPath, jsonpointer.Escape(k))] = k
 	}
 
 	for _, k := range opts.Spec.AllDefinitionReferences() {
+		// $ref strings are URL-escaped, JSON pointers are not
+		if unescaped, err := url.PathUnescape(k); err == nil {
+			k = unescaped
+		}
 		delete(expected, k)
 	}
 
-	for k := range expected {
+	for _, name := range expected {
 		hasRemoved = true
-		debugLog("removing unused definition %s", path.Base(k))
+		debugLog("removing unused definition %s", name)
 		if opts.Verbose {
-			log.Printf("info: removing unused definition: %s", path.Base(k))
+			log.Printf("info: removing unused definition: %s", name)
 		}
-		delete(opts.Swagger().Definitions, path.Base(k))
+		delete(opts.Swagger().Definitions, name)
 	}
 
 	opts.Spec.reload() // re-analyze
